@@ -127,6 +127,18 @@ def run(ctx):
                           N=ctx.rng.choice([0, 1, 3, 5, 9]), general=(it % 4 == 3))
         if case["general"]:
             ctx.hit("general_stream")
+        if it < 3:
+            # a multi-column dimension one of whose columns holds the stored common value on EVERY row (no entry at all for
+            # that column): re-expressing it must still materialise that column
+            for _try in range(40):
+                case = A.gen_case(ctx.rng, multi_axis=True, k=ctx.rng.choice([1, 2]), N=ctx.rng.choice([5, 9]))
+                if any(d.ndim == 2 and d.shape[1] >= 1 for d in case["dense"]):
+                    break
+            for j, d in enumerate(case["dense"]):
+                if d.ndim == 2 and d.shape[1] >= 1:
+                    d[:, ctx.rng.randrange(d.shape[1])] = case["commons"][j]
+                    ctx.hit("all_common_column")
+                    break
         check(ctx, case, reqs, pend)
     for _ in range(ctx.n(9)):       # residue stream: inexact weight sums; empty cells must stay missing after differencing
         case = (A.residue_case(ctx.rng) if _ % 3 == 0 else
